@@ -248,6 +248,27 @@ a transfer, and never reaches the internal-error path -/
 def requestPortOK (replies : List Bytes) (nTransfers : Nat) (loggedException : Bool) : Bool :=
   !loggedException && decide (replies.length + nTransfers ≤ 1) && replies.all wellFormedError
 
+/-- the k-th NUL-terminated field of a byte string (counted from 0) -/
+def fieldAt : Bytes → Nat → Bytes
+  | b, 0 => b.takeWhile (· != 0)
+  | b, k + 1 => fieldAt ((b.dropWhile (· != 0)).drop 1) k
+
+/-- RFC 1350 / RFC 2347 shape of a read request, stated on the bytes without the decoder: opcode 1,
+then NUL-terminated fields up to the very end of the datagram - the file name, a mode name (letter
+case ignored) and option name/value PAIRS, hence an even number >= 2 of terminators -/
+def rfcShape (data : Bytes) : Bool :=
+  match data with
+  | hi :: lo :: body =>
+    unbe16 hi lo == opRRQ && body.getLast? == some 0 &&
+      decide (2 ≤ body.count 0) && body.count 0 % 2 == 0 &&
+      (modeOf (asciiIgnore (fieldAt body 1))).isSome
+  | _ => false
+
+/-- C09, request port, full clause: as `requestPortOK`, and a transfer is started only for a datagram
+of the RFC shape (what the socket delivers: the first `maxReq` bytes) -/
+def requestPortOK2 (data : Bytes) (replies : List Bytes) (nTransfers : Nat) (loggedException : Bool) : Bool :=
+  requestPortOK replies nTransfers loggedException && (nTransfers == 0 || rfcShape (data.take maxReq))
+
 /-- the request port's own reply for a model result -/
 def replyOf : ReqResult → List Bytes
   | .error c => [errorPacket c []]
